@@ -134,6 +134,8 @@ def m_apply(tab, steps, model, prefix_fn=None):
                     raise ModelFail(f"missing join column {c}")
             ncols = cols + [c for c in right["cols"] if c not in cols]
             rows = []
+            if len(tab["rows"]) * len(right["rows"]) > MAX_JOIN_WORK:
+                raise ModelFail("join too large for this simulation", kind="size")
             for lr in tab["rows"]:
                 for rr in right["rows"]:
                     if all(lr[c] == rr[c] for c in on):
@@ -146,6 +148,10 @@ def m_apply(tab, steps, model, prefix_fn=None):
         else:
             raise ValueError(t)
     return tab
+
+
+MAX_JOIN_WORK = 4096
+MAX_ROWS = 96
 
 
 def _uniq(xs):
@@ -603,7 +609,13 @@ def _run(scn, log: EventLog, stats: Stats):
                     if _stale_columns(pipe, model):
                         raise ModelFail("description does not match the table's current columns", kind="column")
                     new_value = m_eval_pipe(pipe, model, pipe["_src_cols"], pipe["_src_key"])
+                    if len(new_value["rows"]) > MAX_ROWS:
+                        # r := f(r) with joins grows geometrically along a history: keep tables small
+                        raise ModelFail("result too large for this simulation", kind="size")
                 except ModelFail as mf:
+                    if mf.kind == "size":
+                        stats.probe("result-too-large-not-sent")
+                        continue
                     if mf.kind == "column":
                         # a stale description naming columns the table no longer has: Pandas/Polars refuse, SQLite
                         # silently reads a double-quoted unknown identifier as a string literal. The property does not
@@ -661,12 +673,19 @@ def _run(scn, log: EventLog, stats: Stats):
                                       "fired": fired})
 
         def viol(cls, detail):
-            # signature names the root cause: fault-free -> (op, class); during a fault -> (op, class, stmt);
-            # after a fault -> only the originating fault point (whatever later operation exposes the inconsistency)
-            if after_fault:
-                return Violation((PROP, rep, "later-operation", "inconsistent-after-fault", last_fault),
-                                 f"{name}: {cls}: {detail}", step)
-            return Violation((PROP, rep, name, cls, last_fault if fired else "no-fault"), detail, step)
+            # fault-free history: the signature names operation and discrepancy class.
+            # After/while an injected DB fault: DBSpace keeps its key map in Python and the tables in the database and
+            # has no recovery, so one un-atomic operation shows up as many different symptoms (dangling key, torn table,
+            # lost binding, debris that makes a later operation misbehave). The signature therefore names only the
+            # root cause - which statement of which operation failed - which is a closed set fixed by the code's
+            # statement structure.
+            if last_fault != "no-fault" and scn["replica"] == "db":
+                when = "during" if fired else "later"
+                return Violation((PROP, rep, "not-atomic-under-db-fault", last_fault),
+                                 f"[{when}] {name}: {cls}: {detail}", step)
+            if last_fault != "no-fault":
+                return Violation((PROP, rep, name, cls, ("during:" if fired else "after:") + last_fault), detail, step)
+            return Violation((PROP, rep, name, cls, "no-fault"), detail, step)
 
         # ---------------- automatic keys
         auto_key = None
